@@ -582,9 +582,23 @@ type histSpec struct {
 	ReaperMs  int64        `json:"reaper_ms"`
 	TotalOps  int          `json:"total_ops"`
 	StratName string       `json:"stratum"`
+	Expiry    []expirySpec `json:"expiry_race,omitempty"`
 }
 
-var strata = []string{"close-race", "delete-race", "mixed", "ttl", "drain", "shutdown", "streams", "isolation"}
+var strata = []string{"close-race", "delete-race", "mixed", "ttl", "drain", "shutdown", "streams", "isolation", "expiry-race"}
+
+// expirySpec is one session of the expiry-race stratum: opened with a short
+// TTL, left alone until just past its expiry (so it is expired but, with a long
+// reaper tick, not yet reaped; with a short tick the lookups race the sweep),
+// then hit by N lookups released together from a spin barrier.
+type expirySpec struct {
+	TTLMs   int64 `json:"ttl_ms"`
+	N       int   `json:"lookups"`
+	Mix     int   `json:"mix"` // 0 resume calls, 1 DELETEs, 2 mixed
+	ExtraUs int64 `json:"extra_wait_us"`
+	CloseUs int64 `json:"close_us"`
+	Ident   int   `json:"ident"`
+}
 
 func genSpec(rng *rand.Rand, seed int64, idx int) histSpec {
 	sp := histSpec{Seed: seed, Index: idx, ReaperMs: 2 + rng.Int64N(6)}
@@ -768,6 +782,34 @@ func genSpec(rng *rand.Rand, seed int64, idx int) histSpec {
 		}
 		sp.Scripts = append(sp.Scripts, sc)
 	}
+	if sp.StratName == "expiry-race" {
+		// Half of these histories keep the reaper out of the way (10 s tick:
+		// expired sessions stay registered until a lookup evicts them in-line),
+		// the other half let the lookups race a fast reaper sweep.
+		sp.Workers = 1
+		sp.Scripts, sp.TotalOps = nil, 0
+		sp.PreOpen = sp.PreOpen[:1]
+		sp.PreOpen[0].TTLMs, sp.PreOpen[0].Mode, sp.PreOpen[0].Worker = 0, openNormal, 0
+		longTick := (idx/len(strata))%2 == 0
+		if longTick {
+			sp.ReaperMs = 10000
+		} else {
+			sp.ReaperMs = 1 + rng.Int64N(5)
+		}
+		k := 6 + rng.IntN(7)
+		for i := 0; i < k; i++ {
+			e := expirySpec{TTLMs: 30 + rng.Int64N(51), N: 4 + rng.IntN(13), Mix: rng.IntN(3), Ident: rng.IntN(sp.Idents)}
+			if !longTick {
+				e.ExtraUs = rng.Int64N(sp.ReaperMs * 1000)
+			} else {
+				e.ExtraUs = rng.Int64N(3000)
+			}
+			if rng.IntN(2) == 0 {
+				e.CloseUs = rng.Int64N(800) // a slow Close() keeps later lookups overlapping the eviction
+			}
+			sp.Expiry = append(sp.Expiry, e)
+		}
+	}
 	// Cold-shutdown variant: worker 1 has served no request when the concurrent
 	// phase starts; its Shutdown() then races the first sticky-aware requests
 	// (lazy reaper start vs. reaper stop).
@@ -911,6 +953,49 @@ func runHistory(r *mon.Run, sp histSpec, key []byte) {
 				}
 			}
 		}(g, script)
+	}
+	for k, e := range sp.Expiry {
+		wg.Add(1)
+		go func(k int, e expirySpec) {
+			defer wg.Done()
+			<-start
+			base := 1000 * (k + 1)
+			sess := hs.open(base, 0, e.Ident, e.TTLMs, openNormal, e.CloseUs)
+			if sess == nil {
+				return
+			}
+			// Just past the expiry (2 ms beyond the latest instant it can
+			// still be unexpired, so every lookup must answer session_lost).
+			target := sess.ExpHigh + int64(2*time.Millisecond) + e.ExtraUs*1000
+			if d := time.Duration(target - w.log.Now()); d > 0 {
+				time.Sleep(d)
+			}
+			var ready atomic.Int32
+			var release atomic.Bool
+			var lw sync.WaitGroup
+			for j := 0; j < e.N; j++ {
+				lw.Add(1)
+				go func(j int) {
+					defer lw.Done()
+					ready.Add(1)
+					for spins := 0; !release.Load(); spins++ {
+						if spins > 1<<16 {
+							runtime.Gosched()
+						}
+					}
+					if e.Mix == 1 || (e.Mix == 2 && j%2 == 1) {
+						hs.del(base+j+1, sess, sess.Worker, sess.Owner)
+					} else {
+						hs.use(base+j+1, sess, sess.Worker, sess.Owner, 0, useNormal, sess.Token, false)
+					}
+				}(j)
+			}
+			for int(ready.Load()) < e.N {
+				runtime.Gosched()
+			}
+			release.Store(true)
+			lw.Wait()
+		}(k, e)
 	}
 	close(start)
 	done := make(chan struct{})
@@ -1057,6 +1142,56 @@ wait:
 	checkEvents(r, sp, events, sessions, witness)
 	checkOutcomes(r, sp, ops, sessions, witness)
 	checkPorcupine(r, sp, ops, sessions, witness)
+
+	if sp.StratName == "expiry-race" {
+		firstClose := map[int64]int64{}
+		for _, e := range events {
+			if e.Actor == "state" && e.Kind == "close" {
+				uid, _ := strconv.ParseInt(e.Key, 10, 64)
+				if _, ok := firstClose[uid]; !ok {
+					firstClose[uid] = e.T
+				}
+			}
+		}
+		for _, sx := range sessions {
+			if sx.TTLMs == 0 {
+				continue
+			}
+			type iv struct{ call, ret int64 }
+			var post []iv
+			for _, o := range ops {
+				if o.Sess == sx.Idx && (o.Kind == "resume" || o.Kind == "delete") && o.Client != 0 && o.Call > sx.ExpHigh {
+					post = append(post, iv{o.Call, o.Ret})
+				}
+			}
+			overlapping := false
+			first := int64(1) << 62
+			for i := range post {
+				if post[i].call < first {
+					first = post[i].call
+				}
+				for j := i + 1; j < len(post); j++ {
+					if post[i].call < post[j].ret && post[j].call < post[i].ret {
+						overlapping = true
+					}
+				}
+			}
+			if !overlapping {
+				continue
+			}
+			r.Count("expiry_race.sessions_with_overlapping_post_expiry_lookups", 1)
+			if fc, ok := firstClose[sx.UID]; !ok || fc > first {
+				// Still registered when the first of the overlapping lookups started.
+				r.Class("expired-unreaped-concurrent-lookups")
+				r.Count("expiry_race.sessions_unreaped_at_first_lookup", 1)
+			} else {
+				r.Class("expired-reaped-before-concurrent-lookups")
+			}
+			if sp.ReaperMs < 1000 {
+				r.Class("expiry-lookups-racing-fast-reaper")
+			}
+		}
+	}
 
 	// Evidence.
 	var trace []mon.Event
@@ -1545,15 +1680,16 @@ func main() {
 	defer r.Finish()
 	vgirpc.RegisterStateType(&prodState{})
 	vgirpc.RegisterStateType(&exchState{})
-	r.SetRule("one case = one concurrent history (<= 60 ops, 2..32 goroutines, 1..4 pre-opened sessions, 1..3 identities, 1..2 workers) generated from (VERIF_SEED, index) in 8 strata (close-race, delete-race, mixed, ttl, drain, shutdown, streams, isolation); distinct = distinct (stratum, order of handler enter/exit and state Close events) signatures, i.e. distinct observed interleavings")
+	r.SetRule("one case = one concurrent history (<= 60 ops, 2..32 goroutines, 1..4 pre-opened sessions, 1..3 identities, 1..2 workers) generated from (VERIF_SEED, index) in 9 strata (close-race, delete-race, mixed, ttl, drain, shutdown, streams, isolation, expiry-race: 6..12 short-TTL sessions per history each hit by 4..16 barrier-released lookups just past expiry, reaper tick 10 s or 1..5 ms); distinct = distinct (stratum, order of handler enter/exit and state Close events) signatures, i.e. distinct observed interleavings")
 	r.Assume("in-process ServeHTTP(recorder) stands for the HTTP client boundary: a call has returned when ServeHTTP returned (deferred lock release included)")
 	r.Assume("session state Close() classifies its caller from the Go call stack (CloseSession / handleStickyDelete / drainExpired|get / shutdown); handler-entered-after-close is only judged for the explicit causes")
 	r.Assume("TTL bounds use the process monotonic clock on both sides; 1 ms slack in the permissive direction")
 	r.Require("handler-enter", "concurrent-same-session-calls", "close-by-handler", "close-by-delete", "close-by-expiry", "close-by-shutdown",
 		"open-refused-draining", "wrong-identity-lost", "wrong-worker-lost", "tampered-token-lost", "panic-or-error-after-open",
-		"handler-panic-inside-session", "stream-producer-resume", "stream-exchange-resume", "followup-live-ok", "quiescent-lock-probe", "porcupine-ok")
+		"handler-panic-inside-session", "stream-producer-resume", "stream-exchange-resume", "followup-live-ok", "quiescent-lock-probe", "porcupine-ok",
+		"expired-unreaped-concurrent-lookups", "expiry-lookups-racing-fast-reaper")
 
-	n := r.N(320, 30000)
+	n := r.N(324, 30006)
 	par := r.N(4, 12)
 	key := []byte("c29-shared-token-key-0123456789abcdef")
 	idxCh := make(chan int)
